@@ -81,7 +81,7 @@ def concrete_register(prog):
     coords = np.round(np.array(reg["layout"]["coords"], dtype=float), 6)
     order = sorted(range(len(coords)), key=lambda i: tuple(coords[i]))
     canon = coords[order]
-    ids = [f"{reg.get('prefix', 'q')}{i}" for i in range(m["k"])]
+    ids = build.register_qubit_ids(reg)[:m["k"]]
     cls = Register3D if canon.shape[1] == 3 else Register
     return cls({q: canon[t] for q, t in zip(ids, m["traps"])}, layout=lay, trap_ids=tuple(m["traps"]))
 
@@ -152,7 +152,7 @@ def check(case, ctx: Ctx):
     reg_direct = None
     if mappable:
         m = prog["mapping"]
-        ids = [f"{prog['register'].get('prefix', 'q')}{i}" for i in range(m["k"])]
+        ids = build.register_qubit_ids(prog['register'])[:m["k"]]
         qmap = {ids[i]: m["traps"][i] for i in m["order"]}
         reg_direct = ctx.must(lambda: concrete_register(prog), C, "own register construction")
     built_snaps = []
